@@ -294,6 +294,12 @@ def InnerValid : Inner → Prop
   | .keep s a => IsPow2 a ∧ s + a ≤ 2 ^ 63
   | .release s a => IsPow2 a ∧ s + a ≤ 2 ^ 63
 
+/-- caller obligations, with no restriction on what a failing initialiser did in the arena -/
+def OpValidFull (y : Sys) : Op → Prop
+  | .atw sz al _ inner _ => IsPow2 al ∧ sz + al ≤ 2 ^ 63 ∧ (∀ i ∈ inner, InnerValid i)
+  | op => OpValid y op
+
+
 /-- the initialiser's own allocations: kept blocks join the live set, released ones leave no trace -/
 theorem runInner_live {E} (hE : EnvOK E) : ∀ (inner : List Inner) (s : St) (live : List Block) (acc : List Nat),
     LiveInv E ⟨s, live⟩ → (∀ i ∈ inner, InnerValid i) →
